@@ -17,6 +17,69 @@ CHECKS = {
          'finite-sum update lemmas; geometric-series step cited (M); termination of the rejection loop not proved; '
          'negative increments outside the property.',
     technique='contract-based deductive verification: AST->VC symbolic execution of the real methods, z3 (quantified, unbounded), finite-scope counter-models + native replay'),
+ 'C01': dict(
+    category='proof',
+    text='Gillespie_SIR: the view/rate loop invariants (infecteds = {u->w_u | I}, IS_links = {(u,v)->w_uv | adj,I,S}, rates = gamma*sum, tau*sum) '
+         'are established and preserved for graphs of any order (node sort uninterpreted), so in EVERY reachable state the expovariate '
+         'argument is the chain\'s total rate and the branch threshold recovery/total; actors are drawn through the C16 contracts. fast_SIR: '
+         'delegation-site obligations (delay rules draw Exp(tau*w_uv), Exp(gamma*w_u), infinite for rate 0; fast path = binomial + sample + truncated '
+         'exponential), handler contracts, queue rule (lemma unit: one event-loop step preserves the global invariant). The step from these '
+         'per-state facts to equality in law is cited (Gillespie direct method, thinning, Sellke/Dijkstra), not machine-checked.',
+    design_ref='DESIGN.md section 5 "C01", 3.1 (queue rule), 3.4',
+    note='Trusted: own VC generator; reals for floats; positive weights; distinct/disjoint initial sets; assumed random/numpy/heapq/networkx contracts; '
+         'finite-sum lemmas; M-steps (Gillespie direct method, thinning, Sellke) cited; termination not proved.',
+    technique='contract-based deductive verification: loop invariants + draw-site obligations on the real simulators, modular callee contracts, z3 (quantified, unbounded) + finite-scope refutation'),
+ 'C02': dict(
+    category='proof',
+    text='Gillespie_SIS: same view/rate invariants with link re-insertion on recovery, draw-site obligations, all ways of passing the initial '
+         'condition, weighted and unweighted, for graphs of any order. fast_SIS is NOT yet under contract (listed as not covered in the evidence).',
+    design_ref='DESIGN.md section 5 "C02"',
+    note='As C01. Partial: only the Gillespie_SIS half of the property is decided; memorylessness argument for fast_SIS cited, not checked.',
+    technique='contract-based deductive verification: loop invariants + draw-site obligations, z3'),
+ 'C04': dict(
+    category='proof',
+    text='The row invariant (equal lengths, times[0]=tmin, non-decreasing, < tmax, counts >= 0 summing to N, consecutive rows differ by one legal move) '
+         'is a conjunct of the proved loop invariants of Gillespie_SIR/SIS and of the global event-loop invariant of fast_nonMarkov_SIR '
+         '(queue rule), and implies the postcondition over the returned, trimmed arrays, for all graphs/rates/horizons/initial sets. '
+         'Crash-freedom obligations (expovariate rate > 0, index/key safety, definite assignment) are discharged on the same paths. '
+         'Other simulators are listed as not covered.',
+    design_ref='DESIGN.md section 5 "C04"',
+    note='As C01. Partial in the set of simulators (see evidence.not_covered). Termination not proved.',
+    technique='contract-based deductive verification: loop / global invariants, safety VCs, queue-rule lemma, z3'),
+ 'C05': dict(
+    category='proof',
+    text='Row 0 = (N-k-r0, k, r0) with k = len(collection) | 1 (single node) | int(round(N*rho)) (site obligation on random.sample: that many '
+         'distinct nodes of G), initially recovered nodes stay recovered, EoNError exactly when rho and initial_infecteds are both given '
+         '(is-not-None semantics), for Gillespie_SIR, Gillespie_SIS, fast_nonMarkov_SIR, fast_SIR; every internal call site of simulation.py '
+         'binds its wrapper parameters to the callee parameters of the same name (delegation-binding analysis, all inputs).',
+    design_ref='DESIGN.md section 5 "C05", 3.2',
+    note='As C01; binding schema restricted to the named forwarding parameters. Prefixes of fast_SIS/fast_nonMarkov_SIS/discrete simulators: binding only.',
+    technique='contract-based deductive verification (postconditions, raises clauses, site obligations) + delegation-binding flow analysis'),
+ 'C11': dict(
+    category='proof',
+    text='Local semantic contracts of the real handlers and queue, for all states: L1 no lost relaxation, L2 no spurious event (edge, time = infection + delay, '
+         '<= source recovery, < tmax), L3 infect iff susceptible at the event time with recovery = time + duration and the recorded source; myQueue stores '
+         'exactly events before tmax and pops a minimal one, calling function(t,*args); event tuples bind by identity onto the handler signature. '
+         'The step from L1-L3 to "infection time = shortest-path distance" is Dijkstra\'s theorem, cited. Percolation builders are not yet under contract.',
+    design_ref='DESIGN.md section 5 "C11"',
+    note='Trusted as C01 + assumed heapq contract. Partial: nonMarkov_directed_percolate_network_with_timing / get_infected_nodes not yet covered.',
+    technique='contract-based deductive verification of the handlers (loop invariant over the scheduling loop, whole-queue postconditions), z3'),
+ 'C18': dict(
+    category='other',
+    text='Flow analyses over the real AST, for all inputs: randomness only from random/np.random and never re-seeded; no global/nonlocal/module-level mutable state; '
+         'in the continuous-time simulators and everything they reach no draw is control-dependent on return_full_data and no loop with an order-sensitive '
+         'effect iterates a set. A bounded native cross-process run (PYTHONHASHSEED 0-2, string node names) is added as a labelled stand-in.',
+    design_ref='DESIGN.md section 5 "C18", 3.2',
+    note='Library iteration orders assumed insertion-ordered; deterministic user call-backs; discrete-time simulators excluded from the flag clause by the statement.',
+    technique='frame/determinism flow analysis (contracts of the ownership kind) + bounded native cross-process comparison'),
+ 'C19': dict(
+    category='proof',
+    text='For every public function of simulation.py, analytic.py, auxiliary.py and each parameter: modifies(f) does not intersect what is reachable from the '
+         'parameter (flow-sensitive may-alias analysis with numpy view table and callee summaries to a fixpoint); analytic.py has no draw site or global state, '
+         'so a repeated call returns identical results.',
+    design_ref='DESIGN.md section 5 "C19", 3.2',
+    note='Trusted: the alias/mutator tables; library functions not tabulated as mutating; in-place operators on bare names are mutations only for array-like parameters.',
+    technique='frame (modifies-clause) analysis over the AST with callee summaries'),
  'C20': dict(
     category='other',
     text='subsample (one/two/three series, recursion checked against its own contract), get_time_shift, get_Pk and estimate_R0 '
